@@ -45,7 +45,8 @@ theorem source_protocol :
     Gen.C15.recognised = true ∧ sourceProto = Proto.good ∧ Gen.C15.writeUnderLock = true ∧
     Gen.C15.probeBeforeScan = true ∧ Gen.C15.scanInLoop = true ∧ Gen.C15.returnsLocal = true ∧
     Gen.C15.fallbackFreshDict = true ∧ Gen.C15.lockIsLock = true ∧ 0 < Gen.C15.registerViewCalls ∧
-    Gen.C15.cachedValuesImmutable = true ∧ Gen.C15.clearDropsEverything = true := by decide
+    Gen.C15.cachedValuesImmutable = true ∧ Gen.C15.clearDropsEverything = true ∧
+    Gen.C15.scanReadsCurrentSRO = true := by decide
 
 /-- GENERATED OBLIGATION.  The cache key determines the scan: every input of `_find_views` whose change alone changes
 the adapter lookups (probed: classifier, view types, request interface, context interface, view name) is
@@ -72,6 +73,39 @@ unmatched Accept headers leave the multiview's containers unchanged) and checked
 machinery after 50 vs 300 distinct odd requests must not grow).  Seeded change C15-4 (a per-multiview memo keyed on the
 raw Accept header, not reset on every `add`) falsifies it. -/
 theorem source_multiview_stateless : Gen.C15.multiviewStateless = true := by decide
+
+/-! ### interfaces that change between two requests
+
+REMARK.  `Cfg.slots q` — the scan order of a query — is what the request's and the context's interfaces give AT THE
+MOMENT of the lookup; the model has no other access to interfaces, so *the view found depends on the registrations in
+force and the interfaces provided at that moment only* is built in (`scan s.regs (cfg.slots q)`), and the generated
+obligation `scanReadsCurrentSRO` (in `source_protocol`) says the implementation computes its scan order from the current
+resolution orders, not from a memo (seeded change C15-7).  When an application changes what a context class or
+instance provides between two requests (`classImplements`, `classImplementsOnly`, `alsoProvides`, `noLongerProvides`,
+`directlyProvides`) the SAME specification object gets another resolution order: in the model the later lookup is
+ANOTHER query `q'` with `cfg.ck q' = cfg.ck q` and `cfg.slots q' ≠ cfg.slots q`.  Then
+* if nothing is cached under the key — the earlier lookup was a miss (`misses_never_cached`) or a registration has
+  swapped the dict since — the later lookup scans and returns `scan regs (cfg.slots q')`: see
+  `interface_change_witness` (first two clauses) and, under `KeyFaithful` for the remaining keys, `warm_eq_cold`;
+* if the earlier lookup was a hit and nothing cleared the cache, `KeyFaithful` fails for this pair and the later
+  lookup is answered with the list of `q` (third clause): the application changed the meaning of a cache key without
+  any registration.  This input class is outside the theorems' hypothesis; the harness counts such warm hits
+  (`EXCLUDED_warm_hit_after_interface_change`) and does not judge them — see notes/C15.md. -/
+
+/-- queries 0 and 1: the same `_find_views` arguments before / after `classImplements(Ctx, IFoo)` — same cache key,
+the later scan order has the `IFoo` slot 7 in front.  After a MISS of query 0 (slot 7 registered only) query 1 returns
+its own scan `[70]`; after a clearing registration too; after a HIT of query 0 (slot 3 registered as well) and no
+clear it is answered `[30]` from the cache although its own scan is `[70, 30]`. -/
+theorem interface_change_witness :
+    let cfg : Cfg := { ck := fun _ => 0, slots := fun q => if q = 0 then [3] else [7, 3] }
+    let miss : Regs := fun s => if s = 7 then some 70 else none
+    let hit : Regs := fun s => if s = 7 then some 70 else if s = 3 then some 30 else none
+    (let s := run Proto.good cfg (init miss) ([.spawn 0] ++ List.replicate 9 (.thread 0) ++ [.spawn 1] ++ List.replicate 9 (.thread 1))
+     result? s 0 = some [] ∧ result? s 1 = some [70]) ∧
+    (let s := run Proto.good cfg (init hit) ([.spawn 0] ++ List.replicate 9 (.thread 0) ++ atomicReg [] ++ [.spawn 1] ++ List.replicate 9 (.thread 1))
+     result? s 0 = some [30] ∧ result? s 1 = some [70, 30]) ∧
+    (let s := run Proto.good cfg (init hit) ([.spawn 0] ++ List.replicate 9 (.thread 0) ++ [.spawn 1] ++ List.replicate 9 (.thread 1))
+     result? s 0 = some [30] ∧ result? s 1 = some [30] ∧ scan s.regs (cfg.slots 1) = [70, 30]) := by decide
 
 /-- the adapter mutations of a multiview conversion in the order the translator finds them in the source -/
 def sourceConversionMods (sM sV sS : Slot) (mv : View) : Mods :=
